@@ -51,6 +51,16 @@ SHADOW = [
     ('between-in-qualified', 'SELECT int1.t1.id AS id FROM int1.t1 WHERE int1.t1.id BETWEEN 1 AND 4 AND int1.t1.a IN (1, 2, 3) AND NOT int1.t1.c IS NULL', False),
     ('exists-qualified', 'SELECT p.id AS id FROM int1.t1 AS p WHERE EXISTS (SELECT 1 FROM int1.t2 WHERE int1.t2.id = p.id)', False),
     ('target-subquery-qualified', 'SELECT p.id AS id, (SELECT max(int1.t2.a) FROM int1.t2) AS m FROM int1.t1 AS p', False),
+    ('window-order-only-qualified', 'SELECT int1.t1.id AS id, row_number() OVER (ORDER BY int1.t1.a DESC, int1.t1.id) AS rn FROM int1.t1', False),
+    ('window-partition-only-qualified', 'SELECT int1.t1.id AS id, count(*) OVER (PARTITION BY int1.t1.a) AS n FROM int1.t1', False),
+    ('window-empty', 'SELECT int1.t1.id AS id, count(*) OVER () AS n FROM int1.t1 WHERE int1.t1.a IS NOT NULL', False),
+    ('two-windows-qualified', 'SELECT int1.t2.id AS id, sum(int1.t2.a) OVER (ORDER BY int1.t2.id) AS s, max(int1.t2.a) OVER (PARTITION BY int1.t2.d) AS m FROM int1.t2', False),
+    # a CTE named like the table it reads / like another table of the integration
+    # a CTE named like the very table its body reads: judged on the plan shape only - after the qualifier is cut the body refers
+    # to its own name, which PostgreSQL / MySQL resolve to the real table but the reference engine rejects as a circular reference
+    ('cte-named-like-its-table', 'WITH t1 AS (SELECT p.id, p.a FROM int1.t1 AS p WHERE p.id > 1) SELECT c.id AS id, c.a AS a FROM t1 AS c', False),
+    ('cte-named-like-other-table', 'WITH t2 AS (SELECT p.id, p.a FROM int1.t1 AS p) SELECT c.id AS id FROM t2 AS c WHERE c.a > 0', False),
+    ('cte-and-real-table-same-name', 'WITH t2 AS (SELECT p.id FROM int1.t1 AS p) SELECT c.id AS id, r.d AS d FROM t2 AS c JOIN int1.t2 AS r ON c.id = r.id', False),
     ('alias-eq-integration-later-scope', 'SELECT int1.id AS id FROM int1.t2 AS int1 WHERE int1.a IN (SELECT int1.t3.x FROM int1.t3 WHERE int1.t3.id > 0)', False),
 ]
 REUSE = [
@@ -84,7 +94,7 @@ NEGATIVE = [
 
 
 def floors(tier):
-    return {'compared': 1500, 'len:shadow_shapes': 25, 'negative_variants': 50, 'len:catalog_forms': 4}
+    return {'compared': 1500, 'len:shadow_shapes': 32, 'negative_variants': 50, 'len:catalog_forms': 4}
 
 
 def ceilings(tier):
@@ -210,6 +220,9 @@ def run_shard(ctx):
                 try:
                     n2, r2 = run(db2, sql2)
                 except sqlite3.Error as e:
+                    if label == 'cte-named-like-its-table' and 'circular reference' in str(e):
+                        acc.count('reference_engine_limit:self-named-cte')
+                        break
                     bad = ('pushed-query-not-executable', {'error': str(e)[:200], 'state': st})
                     break
                 acc.count('compared')
